@@ -1,6 +1,7 @@
 package minicl
 
 import (
+	"github.com/goplus/gogen"
 	"go/ast"
 	"go/token"
 	"go/types"
@@ -364,7 +365,17 @@ func (c *Compiler) funcLit(e *ast.FuncLit) {
 		unsupported("func literal type")
 	}
 	g := c.sig(sig, nil)
-	fn := c.B.NewClosure(g.Params(), g.Results(), g.Variadic())
+	var fn *gogen.Func
+	if g.Params().Len() == 0 && g.Results().Len() == 0 {
+		// every `func()` literal of the package is created from one signature object, as a
+		// front end that keeps common signatures around does; such literals nest
+		if c.voidSig == nil {
+			c.voidSig = types.NewSignatureType(nil, nil, nil, nil, nil, false)
+		}
+		fn = c.B.NewClosureWith(c.voidSig)
+	} else {
+		fn = c.B.NewClosure(g.Params(), g.Results(), g.Variadic())
+	}
 	c.B.ClosureBodyStart(fn, c.Pkg)
 	c.funcBody(e.Body, c.curUnit)
 	c.B.End()
